@@ -228,4 +228,58 @@ theorem files_are_the_source_files (w : World) (root : Path) (ps3 : Bool) (L : L
     exact ⟨it.files, List.mem_map.mpr ⟨it, hit, rfl⟩, hf⟩
   rw [Proof.Content.all_length, runOk_sizes w _ _ _ hrun f hall]
 
+
+/-- `Fits` is implied by: no single directory extent reaches 4 GiB. Sector numbers always fit (a tree whose
+    volume would pass sector 2^31−1 is refused at open, C08 `volume_fits`); file extent lengths always fit
+    (`extent_len_fits`). -/
+theorem fits_unless_huge_directory (w : World) (root : Path) (ps3 : Bool) (L : Layout) (hL : layoutOf w root ps3 = some L)
+    (joliet : Bool) (h : DirLensFit L joliet) : Fits L joliet :=
+  fits_of_dirLens w root ps3 L hL joliet h
+
+/-- **decode ∘ build = the source tree** (both hierarchies, every tree, every clock and filler): in the
+    image generated for `root`, an ISO 9660 reader
+    (1) finds the root directory from the volume descriptor,
+    (2) reaches every directory of the source tree, along exactly its mapped identifiers,
+    (3) reaches nothing that is not a directory of the source tree,
+    (4) assembles in each directory exactly the recorded files, each with exactly its bytes, and
+    (5) those records are the regular-file entries of that source directory, each stat'ed to the inode
+        whose bytes are stored.
+    Only hypothesis: no directory extent of 4 GiB (`DirLensFit`). -/
+theorem image_is_the_tree (w : World) (root : Path) (ps3 : Bool) (clk : Clock) (filler : Bytes) (L : Layout)
+    (hL : layoutOf w root ps3 = some L) (joliet : Bool) (h : DirLensFit L joliet) :
+    let B := imageBytes w L ps3 clk filler
+    (∃ r, rootRecord B joliet = some r ∧ r.extLoc = locOf L joliet 0 ∧ r.extLen = lenOf L joliet 0) ∧
+    (∀ p, Reach w root p → ∃ k it rel, L.items[k]? = some it ∧ it.path = p ∧ p = root ++ rel ∧
+      ReadsDir B (locOf L joliet 0) (lenOf L joliet 0) (idsOf joliet rel) (locOf L joliet k) (lenOf L joliet k)) ∧
+    (∀ ids loc len, ReadsDir B (locOf L joliet 0) (lenOf L joliet 0) ids loc len →
+      ∃ k it rel, L.items[k]? = some it ∧ it.path = root ++ rel ∧ Reach w root it.path ∧ ids = idsOf joliet rel ∧
+        loc = locOf L joliet k ∧ len = lenOf L joliet k) ∧
+    (∀ k it, L.items[k]? = some it →
+      filesOf B (locOf L joliet k) (lenOf L joliet k) = it.files.map (fun f => (makeIdentifier f.name joliet, (cfOf w f.ino).all))) ∧
+    (∀ it ∈ L.items, (∃ q mt, w.stat it.path = some (q, .dir mt) ∧
+        it.files.map (·.name) = (dirNames w q).filter (isFileAt w it.path)) ∧
+      (∀ f ∈ it.files, ∃ q, w.stat (it.path ++ [f.name]) = some (q, .file f.ino)) ∧
+      (∀ f ∈ it.files, (cfOf w f.ino).all.length = f.size)) := by
+  intro B
+  have hfit := fits_of_dirLens w root ps3 L hL joliet h
+  exact ⟨reader_finds_root w root ps3 clk filler L hL joliet hfit,
+    fun p hp => reader_reaches_every_directory w root ps3 clk filler L hL joliet hfit p hp,
+    fun ids loc len hr => reader_reaches_only_source_directories w root ps3 clk filler L hL joliet hfit ids loc len hr,
+    fun k it hk => reader_reads_every_file w root ps3 clk filler L hL joliet hfit k it hk,
+    fun it hit => files_are_the_source_files w root ps3 L hL it hit⟩
+
+/-! non-vacuity: a concrete tree (file `A` of 5 bytes, directory `D` holding the empty file `B`) is accepted by
+    `layoutOf`, has two directories, and satisfies `DirLensFit` in both hierarchies (kernel evaluation) -/
+
+def exampleWorld : World :=
+  { entries := [⟨[[65]], .file 0⟩, ⟨[[68]], .dir 7⟩, ⟨[[68], [66]], .file 1⟩],
+    inodes := [⟨⟨5, 1, []⟩, 3⟩, ⟨⟨0, 1, []⟩, 4⟩] }
+
+instance (L : Layout) (j : Bool) : Decidable (DirLensFit L j) := by unfold DirLensFit; infer_instance
+
+set_option maxRecDepth 100000 in
+example : (match layoutOf exampleWorld [] false with
+    | some L => L.items.length == 2 && decide (DirLensFit L false) && decide (DirLensFit L true)
+    | none => false) = true := by decide
+
 end Ps3.Props.C07
